@@ -250,6 +250,9 @@ class ExecBase:
         for o in obj:
             v, st = self.lift(o, st)
             elems.append(v)
+        if elems and all(isinstance(e, VTuple) for e in elems):
+            # a module-level table of tuples (rule tables): its import-time rows, as an immutable sequence (same assumption)
+            return VTuple(elems), st
         ety = self.elem_type_of_values(elems) if elems else T.Int
         lv = VList(ety, "seq", ref)
         if oid not in st.lifted:
